@@ -284,7 +284,9 @@ def main(ck):
               stats['max_rep_ratio'] = max(stats['max_rep_ratio'], gn / (rep * Sc))
             else:
               stats['max_grad_eps'] = max(stats['max_grad_eps'], gn / (EPS * nn))
-            if gn > bound:
+            if gn > bound and not Q.resolvable(a, g):
+              labels.add('%s:residual-below-cost-resolution' % names[solver])
+            elif gn > bound:
               raise Violation('%s: oracle gradient norm %.6g at the returned qacc exceeds what the solver claims (%s: reported '
                               'scaled gradient %.3g -> bound %.3g; rounding scale %.3g; niter=%s of %d, tolerance=%g, '
                               'nefc=%d, nv=%d)' % (tag, gn, claim, rep, bound, nn, list(niter[:ni_used]), iters, tol, Q.nefc,
